@@ -89,7 +89,16 @@ REG = {
                 "(punctuation, every C0 control, DEL, NEL, NBSP, LS/PS, BOM, ZWSP, RLO, combining marks, non-ASCII digits, astral characters) and pure noise; targeted arithmetic corner cases as "
                 "expression trees (roots of negatives, operands/results beyond the double range, 0**-n, /0, escapes above U+10FFFF, lone surrogates in constants, literals and printed values around "
                 "CPython's 4300-digit limits, empty/heterogeneous sets, capacities 0/-1/2**64); nesting 2..300 of parentheses/braces/unary operators and sums of up to 1500 terms; arbitrary file and "
-                "directory names (dots, signs, blanks, non-ASCII digits, control characters, long names, both extensions) incl. two files of one (name, version); read with read_namespace",
+                "directory names (dots, signs, blanks, non-ASCII digits, control characters, long names, both extensions) incl. two files of one (name, version); read with read_namespace; "
+                "diagnostic paths (14% of the cases + a fixed sample): namespaces with exactly one defect or one defective pair of files, one family per rule the library reports (every subclass of "
+                "InvalidDefinitionError is reached: undefined type / version / namespace, undefined identifier, unknown and misused directives, extent against the size of the type, missing "
+                "serialization mode, minor versions that disagree in extent / sealing / kind / port-ID or are defined twice, constants out of range or of the wrong kind, capacities, bit lengths, "
+                "cast modes, reserved / too long / colliding / non-ASCII names, union and aggregation rules, port-IDs at and beyond their limits, version numbers, malformed file names, root and "
+                "lookup directories against each other, a target outside of every root, undefined attributes and operators, failing assertions, syntax errors at extreme positions), each with "
+                "EXTREME parameters (2**64, around the largest double 2**1024 and 8x / 64x that, 10**400, 10**4000, beyond the 4300-digit limit, names and literals of 10**4 characters) and TIED "
+                "candidates (no / one / two equally close / a ring of / many other versions of the requested type, equally similar names, letter-case variants, the same candidates in a second "
+                "directory), the defect placed in a plain definition, a service section, a union, a nested namespace, a dependency, a dependency of a dependency or a lookup namespace, read through "
+                "read_namespace / read_files (all files) / read_files (one target); the error must name the offending file",
         "technique": "Lean 4 theorems over the exception funnel as a decision function and over a hazard model of expression evaluation; totality of file-name parsing proved over Lean definitions translated from the working tree on every run (py2lean_filename: Gen.FileName, Props.C13Gen) + differential correspondence (the model predicts ok/invalid/hazard for the "
                      "modelled expressions) + the exception class as oracle",
         "level_text": "Proved in Lean 4 for the model: the funnel (parse: Error passes, ParseError -> syntax error, VisitationError -> InternalError; read/_read_definitions: Error passes with path, anything else -> "
